@@ -261,4 +261,17 @@ def allU64 (srcs : List Src) : Bool :=
 def mergedCol (srcs : List Src) : ColT3 :=
   if allI64 srcs then .i64 else if allU64 srcs then .u64 else .f64
 
+/-! ### write-time type of a path that receives both i64- and u64-supplied values
+
+The accumulator of `colOf`, without the restriction to one supplied type: a value supplied as i64
+(`false`) keeps the column u64-compatible only if it is ≥ 0; a value supplied as u64 (`true`) keeps
+it i64-compatible only if it is strictly below i64::MAX; neither → f64.
+-- mirrors: columnar/src/columnar/writer/column_writers.rs::accept_value -/
+
+def pI (vals : List (Bool × Int)) : Bool := vals.all (fun p => !p.1 || decide (p.2 < I64MAX))
+def pU (vals : List (Bool × Int)) : Bool := vals.all (fun p => p.1 || decide (0 ≤ p.2))
+
+def writtenCol (vals : List (Bool × Int)) : ColT3 :=
+  if pI vals then .i64 else if pU vals then .u64 else .f64
+
 end TantivyModel.JsonRange
